@@ -48,11 +48,13 @@ Proof.
 Qed.
 
 (* ---- ideal range proofs *)
+(* the regenerated constant TxOut::RANGEPROOF_MIN_VALUE; if it changes in the source this lemma, and with it C04, stops checking *)
+Lemma rp_min_value : RANGEPROOF_MIN_VALUE = 1. Proof. reflexivity. Qed.
 Lemma rp_new_verify c v vbf msg spk key gen rp :
   rp_new c v vbf msg spk key gen = Some rp -> geq c (commit v gen vbf) -> rp_verify rp c spk gen = true.
 Proof.
   unfold rp_new. destruct ((RANGEPROOF_MIN_VALUE <=? v) && (v <=? I64_MAX)) eqn:R; [|discriminate].
-  intros [= <-] E. apply andb_true_iff in R as [R1 R2]. apply Z.leb_le in R1, R2. unfold RANGEPROOF_MIN_VALUE, I64_MAX in *.
+  intros [= <-] E. apply andb_true_iff in R as [R1 R2]. apply Z.leb_le in R1, R2. rewrite rp_min_value in R1. unfold I64_MAX in *.
   unfold rp_verify. cbn [rp_intact rp_commit rp_script rp_gen rp_value rp_vbf].
   rewrite !geqb_refl, bytes_eqb_refl. cbn [andb].
   apply andb_true_iff. split; [apply andb_true_iff; split|].
@@ -63,7 +65,7 @@ Qed.
 Lemma rp_new_some c v vbf msg spk key gen :
   1 <= v <= I64_MAX -> rp_new c v vbf msg spk key gen = Some (mkRP c spk gen v vbf msg key true).
 Proof.
-  intros V. unfold rp_new, RANGEPROOF_MIN_VALUE. destruct (1 <=? v) eqn:A, (v <=? I64_MAX) eqn:B; try reflexivity;
+  intros V. unfold rp_new. rewrite rp_min_value. destruct (1 <=? v) eqn:A, (v <=? I64_MAX) eqn:B; try reflexivity;
     try apply Z.leb_gt in A; try apply Z.leb_gt in B; lia.
 Qed.
 Lemma rp_rewind_new c v vbf msg spk key gen rp :
